@@ -438,9 +438,20 @@ fn nv_stage(m: &Message, r: &mut Rng, v: &mut Vec<Violation>, st: &mut Stats) {
 
 /// C16.a / C16.b on one item; returns the bytes if the item satisfies the length precondition
 fn salvage_item(m: &Message, storage: bool, v: &mut Vec<Violation>, st: &mut Stats) -> Option<Vec<u8>> {
-    let r = guarded(|| (m.as_bytes(), m.byte_len()));
-    let Ok((b, bl)) = r else { return None }; // C03.b's business
-    let expect = if storage { 16 } else { 0 } + bl as usize;
+    let r = guarded(|| m.as_bytes());
+    let Ok(b) = r else { return None }; // C03.b's business
+    // "the length its own header declares": read from the header FIELDS of the parsed message
+    // (fixed part + optional fields present + extended header + payload length), not from a
+    // length function of the crate — a writer that repairs a stale length, and reports the
+    // repaired one, must not slip a message into the premise that its header does not cover
+    let h = &m.header;
+    let declared = 4
+        + if h.ecu_id.is_some() { 4 } else { 0 }
+        + if h.session_id.is_some() { 4 } else { 0 }
+        + if h.timestamp.is_some() { 4 } else { 0 }
+        + if h.has_extended_header { 10 } else { 0 }
+        + h.payload_length as usize;
+    let expect = if storage { 16 } else { 0 } + declared;
     if b.len() != expect {
         st.inc("salvage_precondition_fails");
         return None;
